@@ -538,6 +538,31 @@ func builtinModels() map[string]modelFn {
 		o.timerActive = true
 		e.finish(st, c, e.ctx.Bool(was))
 	}
+	// tickers: the channel stays armed; each fire advances the modelled clock by the period
+	m["time.NewTicker"] = func(e *Engine, st *State, c *callCtx) {
+		d, ok := c.args[0].(*Term)
+		if !ok || !d.IsConst() || d.Signed() <= 0 {
+			e.unsupported(st, "time.NewTicker with a symbolic or non-positive period")
+		}
+		tt := e.prog.ImportedPackage("time").Type("Ticker").Type()
+		id := e.allocType(st, tt)
+		ch := e.newObj(st, &Object{kind: ObjChan, bufcap: 1, isTimer: true, timerActive: true, tickPeriod: d.Signed()})
+		e.store(st, PtrVal{obj: id}, ChanVal{obj: ch})
+		e.finish(st, c, PtrVal{obj: id})
+	}
+	m["(*time.Ticker).Stop"] = func(e *Engine, st *State, c *callCtx) {
+		timerChan(e, st, c).timerActive = false
+		e.finish(st, c, nil)
+	}
+	m["(*time.Ticker).Reset"] = func(e *Engine, st *State, c *callCtx) {
+		d, ok := c.args[1].(*Term)
+		if !ok || !d.IsConst() || d.Signed() <= 0 {
+			e.unsupported(st, "(*time.Ticker).Reset with a symbolic or non-positive period")
+		}
+		o := timerChan(e, st, c)
+		o.timerActive, o.tickPeriod = true, d.Signed()
+		e.finish(st, c, nil)
+	}
 	m["time.After"] = func(e *Engine, st *State, c *callCtx) {
 		ch := e.newObj(st, &Object{kind: ObjChan, bufcap: 1, isTimer: true, timerActive: true})
 		e.finish(st, c, ChanVal{obj: ch})
